@@ -186,6 +186,20 @@ Section Director.
     | _ => Err ErrIO
     end.
 
+  (* vermouth's itp reader applies the same conditional discipline inside a molecule-type block:
+     no nesting, no stray #else / #endif, closed at the end; any other pragma is an error *)
+  Fixpoint block_ok (ls : list string) (open_ : bool) : bool :=
+    match ls with
+    | [] => negb open_
+    | l :: r =>
+      if starts "#" l then
+        if String.eqb l "#endif" then open_ && block_ok r false
+        else if starts "#else" l then open_ && block_ok r open_
+        else if starts "#ifdef" l || starts "#ifndef" l then negb open_ && block_ok r true
+        else false
+      else block_ok r open_
+    end.
+
   (* finalize of one director *)
   Definition finalize (s : dstate) : result shared :=
     let itps := if itp_nonempty s then (d_itps s ++ [match d_itp s with Some l => l | None => [] end])%list else d_itps s in
@@ -195,6 +209,7 @@ Section Director.
       let sh := d_sh s in
       let blocks := (sh_blocks sh ++ itps)%list in
       let names := flat_map (fun b => match block_name b with Some n => [n] | None => [] end) blocks in
+      if negb (forallb (fun b => block_ok b false) itps) then Err ErrIO else
       if forallb (fun nc => existsb (String.eqb (fst nc)) names) (d_mols s)
       then Ok {| sh_defaults := sh_defaults sh; sh_defines := sh_defines sh; sh_content := sh_content sh;
                  sh_blocks := blocks; sh_mols := (sh_mols sh ++ d_mols s)%list |}
